@@ -255,10 +255,48 @@ def thompson : P String := do
   P.eof
   pure v.render
 
+/-- `C07 tsync <component> <w> <n> { cnt[w] N mean M2 | g[w] t sd | row[w] rew }`
+    a Thompson model row together with the engine outputs that produced it (the harness replays the model's
+    random engine from the same seed: gamma draws with the Jeffreys parameters `dirichletParams cnt`, then — when
+    N ≥ 2 — one Student-t draw with N−1 degrees of freedom; `sd` is the harness's own `sqrt(M2/(N(N−1)))`).
+    diff: the Lean `Pair.thompsonSync` on these outputs vs the implementation; fail: validity clauses. -/
+def tsync : P String := do
+  let comp ← P.tok; let w ← P.nat; let n ← P.nat
+  let rec go : Nat → Nat → Verdict → P Verdict
+    | 0, _, v => pure v
+    | k+1, i, v => do
+        let cnt ← P.rep P.nat w; let nn ← P.nat; let mean ← P.q; let m2 ← P.q
+        let gs ← P.rep P.q w; let t ← P.q; let sd ← P.q
+        let o ← pMod w
+        let cell : Cell := ⟨nn, mean, m2⟩
+        let pr : Pair := { (Pair.init w 0 i) with cell := cell, cnt := cnt }
+        let q := pr.thompsonSync gs t sd
+        -- the harness's sd against the model's posterior scale
+        let v := match thompsonPost cell with
+          | some post => v.diffIf (!(closeQ (1/100000000) (sd * sd) post.scale2)) s!"{comp} posterior_scale pair={i} sd^2={ratStr (sd*sd)} model={ratStr post.scale2}"
+          | none => v
+        let rowBad := (List.range w).any (fun k => !(xClose (o.row.getD k .nan) (nthQ q.row k)))
+        let v := v.diffIf rowBad s!"{comp} row pair={i} model={q.row.map ratStr} impl={o.row.map showX}"
+        let v := v.diffIf (!(xClose o.rew q.rew)) s!"{comp} reward pair={i} model={ratStr q.rew} impl={showX o.rew}"
+        -- validity of what is exposed
+        let allFin := o.row.all xFin
+        let qs := o.row.map (fun x => match x with | .fin q => q | _ => 0)
+        let v := v.failIf (!allFin) s!"{comp} row_not_finite pair={i} {o.row.map showX}"
+        let v := v.failIf (allFin && qs.any (fun q => decide (q < 0))) s!"{comp} row_negative_entry pair={i}"
+        let v := v.failIf (allFin && !(decide (AITB.Exp.absQ (sumQ qs - 1) ≤ tol))) s!"{comp} row_sum_not_one pair={i} sum={ratStr (sumQ qs)}"
+        let v := v.failIf (!(xFin o.rew)) s!"{comp} reward_not_finite pair={i} {showX o.rew}"
+        let v := v.failIf (nn < 2 && !(xClose o.rew mean)) s!"{comp} reward_not_mle_below_two_visits pair={i} impl={showX o.rew}"
+        let v := v.failIf (gs.any (fun g => decide (g ≤ 0))) s!"{comp} gamma_draw_not_positive pair={i}"
+        go k (i+1) v
+  let v ← go n 0 { tag := "tsync" }
+  P.eof
+  pure v.render
+
 def handle (toks : List String) : String :=
   let r := match toks with
     | "hist" :: rest => P.run hist rest
     | "thompson" :: rest => P.run thompson rest
+    | "tsync" :: rest => P.run tsync rest
     | _ => none
   r.getD "bad-op"
 
